@@ -71,6 +71,18 @@ def vecBody {α : Type} [ToString α] (f : Bytes → Outcome (α × Bytes)) (bs 
 def ofSpec {α : Type} (f : Bytes → Option (α × Bytes)) (bs : Bytes) : Outcome (α × Bytes) :=
   match f bs with | some x => .ok x | none => .err .other
 
+/-- `deserialize_i128` at wire type `nat`: `decode_nat`, then `i128::try_from` -/
+def natAsI128 (bs : Bytes) : Outcome (Int × Bytes) :=
+  match Impl.decodeNat128 bs with
+  | .ok (n, r) => if n < 2 ^ 127 then .ok ((n : Int), r) else .err .overflow
+  | .err k => .err k
+  | .panic s => .panic s
+/-- specification: the natural number the string denotes, if it is an `i128` -/
+def natAsI128S (bs : Bytes) : Option (Int × Bytes) :=
+  match specReadNat bs with
+  | some (n, r) => if n < 2 ^ 127 then some ((n : Int), r) else none
+  | none => none
+
 def handleLeb (op : String) (args : List String) : Option String :=
   match op, args with
   | "leb.natDecode", [h] => (bytesOfHex h).map fun bs => showNatRes (Impl.natDecode bs) ++ "\t" ++ showNatSpec (specReadNat bs)
@@ -90,6 +102,8 @@ def handleLeb (op : String) (args : List String) : Option String :=
   | "leb.msgNatAsInt", [h] => (bytesOfHex h).map fun bs => wholeI (natAsInt (Impl.deNat bs)) ++ "\t" ++ wholeIS (natAsIntS (specReadNat bs))
   | "leb.msgU128", [h] => (bytesOfHex h).map fun bs => wholeN (Impl.decodeNat128 bs) ++ "\t" ++ wholeNS (specReadU128 bs)
   | "leb.msgI128", [h] => (bytesOfHex h).map fun bs => wholeI (Impl.decodeInt128 bs) ++ "\t" ++ wholeIS (specReadI128 bs)
+  | "leb.msgNatAsI128", [h] => (bytesOfHex h).map fun bs => wholeI (natAsI128 bs) ++ "\t" ++ wholeIS (natAsI128S bs)
+  | "leb.msgVecNatAsI128", [h] => (bytesOfHex h).map fun bs => vecBody natAsI128 bs ++ "\t" ++ vecBody (ofSpec natAsI128S) bs
   | "leb.msgVecNat", [h] => (bytesOfHex h).map fun bs => vecBody Impl.deNat bs ++ "\t" ++ vecBody (ofSpec specReadNat) bs
   | "leb.msgVecInt", [h] => (bytesOfHex h).map fun bs => vecBody Impl.deInt bs ++ "\t" ++ vecBody (ofSpec specReadInt) bs
   | "leb.msgVecU128", [h] => (bytesOfHex h).map fun bs => vecBody Impl.decodeNat128 bs ++ "\t" ++ vecBody (ofSpec specReadU128) bs
